@@ -459,6 +459,39 @@ def gen_fanin_case(rng: random.Random):
     return dict(n=n, types=types, grp=grp, edges=edges, until=until, beh=beh, init=[], maxloop=100)
 
 
+def gen_mixed_attr_case(rng: random.Random):
+    """ONE destination attribute fed by a persistent output of one simulator and by an event output of another (two slots of
+    the same attribute): the meter produces at every step, the alarm only now and then; the consumer - triggered by both -
+    also steps while the alarm is silent and must then see the meter's value only, with the cache on (pulled) and off (kept
+    in the persistent-input memory) alike.  Sometimes a second persistent source, sometimes the consumer steps by itself."""
+    until = rng.randint(4, 7)
+    extra = rng.random() < 0.4
+    ctype = rng.choice(['hybrid', 'hybrid', 'event-based'])
+    types = [rng.choice(['time-based', 'hybrid']), rng.choice(['event-based', 'hybrid']), ctype] + (['time-based'] if extra else [])
+    n = len(types)
+    grp = [[] for _ in range(n)] if rng.random() < 0.8 else [[0] for _ in range(n)]
+    edges = [dict(a=0, b=2, sa='po', da='ti', kind='p', shift=0, init=False),
+             dict(a=1, b=2, sa='eo', da='ti', kind='p', shift=0, init=False)]
+    if extra: edges.append(dict(a=3, b=2, sa='po', da='ti', kind=rng.choice(['p', 'ts']), shift=1, init=False))
+    if edges[-1]['kind'] != 'ts': edges[-1]['shift'] = 0
+    rng.shuffle(edges)
+    loud = sorted(rng.sample(range(until), rng.randint(1, 2)))
+    beh = []
+    for i in range(n):
+        if types[i] == 'time-based':
+            beh.append({'type': 'time-based', 'step_size': 1, 'default_output': [None, ['po']]})
+        elif i == 1:
+            ss = {str(t): t + 1 for t in range(until)}
+            outs = {f'{t},0': [None, (['eo'] if t in loud else []) + (['po'] if types[i] == 'hybrid' else [])] for t in range(until + 1)}
+            beh.append({'type': types[i], 'self_steps': ss, 'outputs': outs, 'default_output': [None, ['po'] if types[i] == 'hybrid' else []]})
+        elif i == 2:
+            ss = {str(t): t + 1 for t in range(until)} if (ctype == 'hybrid' and rng.random() < 0.4) else {}
+            beh.append({'type': ctype, 'self_steps': ss, 'outputs': {}, 'default_output': [None, ['po'] if ctype == 'hybrid' else []]})
+        else:
+            beh.append({'type': 'hybrid', 'self_steps': {str(t): t + 1 for t in range(until)}, 'outputs': {}, 'default_output': [None, ['po']]})
+    return dict(n=n, types=types, grp=grp, edges=edges, until=until, beh=beh, init=[[1, 0]] if types[1] == 'event-based' else [], maxloop=100)
+
+
 def delay_async_edges(rng, case):
     """the connection that carries async_requests becomes time-shifted / weak itself: the input delay of the pair must still
     be the (zero) delay of the async-requests relation"""
